@@ -12,7 +12,7 @@ pub struct Case {
     pub name: String,
 }
 
-fn case_strategy(_t: Tier) -> BoxedStrategy<Case> {
+pub fn case_strategy(_t: Tier) -> BoxedStrategy<Case> {
     let part = || {
         prop_oneof![
             4 => prop::sample::select(vec!["", "a", "foo", "py312", "nb", "nb1", "x-nb1", "libnbcompat", "é", "1.0", "p5"]).prop_map(String::from),
@@ -240,10 +240,10 @@ pub fn property() -> Property {
         id: "C18",
         rule: "Strings with 0-4 '-', empty parts, 'nb' inside the base ('nb', 'nb1', 'x-nb1', 'libnbcompat'), versions ending in 'nb' + 1-18 digits (leading zeros, 10^17, 999999999999999999), several 'nb' in the version, 'nb' without digits / followed by letters, version tokens of the C01 generator, non-ASCII, and arbitrary strings. Oracle: pkgname() = input; base / version = text before / after the last '-' (whole string / empty without '-'), base + '-' + version rebuilds the name, version has no '-'; version ending in nb<digits> -> pkgrevision() = that number, and that is the revision the comparison uses: the name matches 'base>=Xnb r' and 'base<=Xnb r', does not match '>' / '<' with r, matches '<Xnb(r+1)' and '>Xnb(r-1)' (X = version up to the last nb); no 'nb' at all -> None; Summary::set_pkgname(n).pkgbase()/pkgversion() give the same split for non-empty base and version. Non-trivial = >= 2 '-' or 'nb' twice in the version or inside the base. Distinct = distinct strings. Generators also draw, at low weight, tokens from the source-literal dictionary (every string / byte / character literal of the library's own source, collected at build time and filtered by this domain's character class) (as name parts); versions of a chosen number (0-1300) of components in front of the revision.",
         assumptions: vec!["versions with 'nb' not followed by digits to the end are only checked for the split (the statement leaves their revision open)"],
-        streams: vec![random_stream("names", "generated package names", case_strategy, |t| t.pick(200_000, 10_000_000), check)],
+        streams: vec![random_stream("names", "generated package names", case_strategy, |t| t.pick(200_000, 10_000_000), check), crate::fuzz::replay_stream()],
         selfcheck: || Ok(()),
         hang_is_violation: false,
         min_nontrivial_share: 0.05,
-        extra: None,
+        extra: Some(crate::fuzz::extra),
     }
 }
